@@ -177,3 +177,25 @@ func TestC10Concurrent(t *testing.T) {
 		Gen:  genC10C, Exec: execC10C,
 	})
 }
+
+// C04LogConcurrent / C08LogConcurrent: the same races judged for the premise C04 and C08 rest on: a notification that was
+// recorded (locally, or by a peer and gossiped here) is still known when the next flush consults the log, as long as
+// its entry has not expired, whatever maintenance does at the same time. A forgotten entry makes the next flush notify
+// again without any change (C04) and lets a later-positioned instance send what another instance already sent (C08).
+func TestC04LogConcurrent(t *testing.T) {
+	pbt.Run(t, pbt.Spec[c10cScenario]{
+		Property: "C04", Name: "C04LogConcurrent",
+		Rule: "the scenarios of C10Concurrent with local Log calls (what SetNotifiesStage does after a delivery): GC runs racing the recording of notifications for keys whose previous entry has expired but was not collected yet; every recorded, unexpired entry must be returned by Query afterwards (else the next flush re-notifies an unchanged group). Non-trivial: a fresh entry for an expired key was written while a GC ran.",
+		Gen:  func(t *rapid.T) c10cScenario { sc := genC10C(t); sc.Merge = false; return sc },
+		Exec: execC10C,
+	})
+}
+
+func TestC08LogConcurrent(t *testing.T) {
+	pbt.Run(t, pbt.Spec[c10cScenario]{
+		Property: "C08", Name: "C08LogConcurrent",
+		Rule: "the scenarios of C10Concurrent with entries arriving by gossip (Merge of what a peer logged): GC runs racing the merge of fresh entries for keys whose previous entry has expired but was not collected yet; every merged, unexpired entry must be returned by Query afterwards (else this instance sends what the peer already sent). Non-trivial: a fresh entry for an expired key was merged while a GC ran.",
+		Gen:  func(t *rapid.T) c10cScenario { sc := genC10C(t); sc.Merge = true; return sc },
+		Exec: execC10C,
+	})
+}
